@@ -106,4 +106,30 @@ PLANS = {
         "edge-for-edge with kids() of every reachable vertex (exactly once), line-count bound; Debug/Display entries and v_print() parsed "
         "and compared with keys()/kids()/model data; non-trivial = start vertex from which a cycle and a vertex of in-degree >= 2 are reachable",
         (1500, 12), (25000, 150), mode="sink"),
+    "C11": hist(
+        "small-scope sweep: every ordered left tree <= 3 vertices x every left vertex x every ordered right tree <= 4 (5 thorough) vertices x "
+        "all 3^k placements of {no, inline, heap} data; plus random trees up to 9 (12) vertices on arbitrary ids with a GC history in the left "
+        "graph; after the merge: structure (paths, injectivity, old edges, vertex count, right graph unchanged) and a read/drain continuation "
+        "judged by the C01 trace rules, the reference model and byte read-back; non-trivial = partial overlap, data in the right tree, >=1 new "
+        "vertex and a group dying in the continuation",
+        (300, 12), (6000, 150), floor=30),
+    "C12": hist(
+        "right graph = random tree + 0..6 extras (isolated vertices with/without data, detached sub-trees, right below the root), random left "
+        "tree and left vertex; oracle = reachability in the right graph computed from its build ops; Ok must imply completeness, Err must "
+        "name (as nu<id>) every missed vertex, control cases without extras must return Ok; non-trivial = a detached sub-tree of >=2 vertices "
+        "or right below the root",
+        (1500, 8), (30000, 100)),
+    "C14": hist(
+        "ASTs of 1..40 ADD/BIND/PUT commands over literal ids and up to 6 variables on top of a random base history, rendered with random "
+        "legal formatting (spaces, tabs, newlines, nu-prefixes, comments containing ; ) #, hex in mixed case with/without dashes and inner "
+        "whitespace); twin = the same graph driven by direct calls; digests + snapshot compared, then a 20-call continuation and a drain on both; "
+        "one third of the programs carry one of 12 single-fault corruptions: Err required, graph == preceding commands applied; non-trivial = "
+        "a variable used in >=2 commands, a comment and a datum > 8 bytes",
+        (700, 10), (12000, 120), floor=30),
+    "C19": hist(
+        "mixed histories (merge and slice included) generated for (N0,cap0), replayed in the same process, in a second process (fresh "
+        "RandomState, other ASLR) and under 4 (8 thorough) other configurations N>=N0, cap>=cap0; the prefix hashes of the full observation "
+        "trace (every return value incl. kids() order and allocated ids, keys/kids/kid/v_print after every call, all printers every 16 calls) "
+        "must agree; non-trivial = history with a merge creating >=2 vertices or a slice of >=3 vertices, replayed under >=3 other configurations",
+        (150, 14), (2500, 150), floor=20),
 }
